@@ -11,6 +11,8 @@ CONSTANTS
   WithProxyDel = TRUE
   CfiLayouts = {"none", "proc_all", "proc_each", "proc_rs"}
   Isa = "x64"
+  WithScopes = FALSE
+  InsFns = {"none"}
   Emit = TRUE
 INVARIANT Inv
 CHECK_DEADLOCK FALSE
